@@ -78,7 +78,9 @@ pub(crate) fn decompose(gamma2: i32, r: Zq) -> (Zq, Zq) {
         // ml-dsa-44
         xr1 = (rp + 127) >> 7;
         xr1 = (xr1 * 11275 + (1 << 23)) >> 24;
-        xr1 ^= ((43 - xr1) >> 31) & xr1;
+        // the mask is hidden from the optimizer: at opt-level "s" it otherwise recognizes the select and
+        // emits a conditional branch on this secret-derived value (the other arm below is a plain mask)
+        xr1 ^= core::hint::black_box((43 - xr1) >> 31) & xr1;
     } else {
         // ml-dsa-65 and ml-dsa-87
         xr1 = (rp + 127) >> 7;
